@@ -446,10 +446,9 @@ theorem mergeInterface_flat (fuel id : Nat) (s s' : AggState) (F G : Forest) (si
                         t.setInterface e fun i =>
                           { id := i.id, uses := i.uses, exports := amInsert i.exports n remapped }
                   else pure () : AggM Unit) s0 = .ok ((), s1) := by
-        generalize s0.cfg.nestedMerge = b at hb
         cases tk with
-        | func _ => cases b <;> exact hb
-        | value _ => cases b <;> exact hb
+        | func _ => exact hb
+        | value _ => exact hb
         | _ => cases ltk
       clear hb
       simp only [bind_ok, hr, Except.ok.injEq, Prod.mk.injEq] at hb'
